@@ -372,19 +372,26 @@ Proof.
   apply keeps_tv_plain. eapply ping_keeps; exact Hy.
 Qed.
 
-Lemma gen_light_ready_tv n n' lr :
-  gen_light_ready n = Ok (n', lr) -> tv_plain (rn_raft n) (rn_raft n').
+Lemma gen_light_ready_keeps n n' lr :
+  gen_light_ready n = Ok (n', lr) -> keeps (rn_raft n) (rn_raft n').
 Proof.
   unfold gen_light_ready. intros H. ib H oe Hoe. ib H csi Hcsi. injection H as <- _. cbn.
-  apply keeps_tv_plain. eapply keeps_trans; [apply reduce_uncommitted_size_keeps|reflexivity].
+  eapply keeps_trans; [apply reduce_uncommitted_size_keeps|reflexivity].
 Qed.
 
-Theorem rn_ready_tv n n' rd : rn_ready n = Ok (n', rd) -> tv_plain (rn_raft n) (rn_raft n').
+Lemma gen_light_ready_tv n n' lr :
+  gen_light_ready n = Ok (n', lr) -> tv_plain (rn_raft n) (rn_raft n').
+Proof. intros H. apply keeps_tv_plain. eapply gen_light_ready_keeps; exact H. Qed.
+
+Lemma rn_ready_keeps n n' rd : rn_ready n = Ok (n', rd) -> keeps (rn_raft n) (rn_raft n').
 Proof.
   unfold rn_ready. intros H. ib H recs Hrecs. ib H x Hx. destruct x as [[[snap csi] rec_snap] ms2].
   ib H y Hy. destruct y as [n2 light]. injection H as <- _. cbn.
-  apply gen_light_ready_tv in Hy. cbn in Hy. eapply tv_plain_trans; [|exact Hy]. tvs.
+  apply gen_light_ready_keeps in Hy. cbn in Hy. eapply keeps_trans; [|exact Hy]. reflexivity.
 Qed.
+
+Theorem rn_ready_tv n n' rd : rn_ready n = Ok (n', rd) -> tv_plain (rn_raft n) (rn_raft n').
+Proof. intros H. apply keeps_tv_plain. eapply rn_ready_keeps; exact H. Qed.
 
 Lemma commit_ready_tv n rd n' : commit_ready n rd = Ok n' -> tv_plain (rn_raft n) (rn_raft n').
 Proof.
@@ -698,3 +705,148 @@ Proof.
     + eapply step_leader_vs; exact H.
     + apply wf_vs. eapply (step_candidate_wf VR eq_refl eq_refl eq_refl eq_refl eq_refl eq_refl); exact H.
 Qed.
+
+(* ------------------------------------------------------------------ *)
+(* 4. the hard state hand-out *)
+
+(* if the node's (term, vote) differ from what the application was last handed, the Ready
+   carries the current hard state, demands a synchronous write, holds its messages back
+   until the application reports it persisted, and the record kept for it says so *)
+Theorem ready_hands_out_hard_state n n' rd :
+  rn_ready n = Ok (n', rd) ->
+  (r_term (rn_raft n) <> hs_term (rn_prev_hs n) \/ r_vote (rn_raft n) <> hs_vote (rn_prev_hs n)) ->
+  rd_hs rd = Some (Raft.hard_state_of (rn_raft n)) /\
+  rd_must_sync rd = true /\ rd_is_persisted_msg rd = true /\
+  (exists recs rr, rn_records n' = recs ++ [rr] /\ rr_number rr = rd_number rd /\
+                   rr_hs_changed rr = true) /\
+  r_term (rn_raft n') = r_term (rn_raft n) /\ r_vote (rn_raft n') = r_vote (rn_raft n).
+Proof.
+  intros H Hd.
+  pose proof (keeps_fields _ _ (rn_ready_keeps _ _ _ H)) as (T1 & T2 & _).
+  pose proof (must_sync_spec _ _ _ H) as Hms.
+  pose proof (ready_entries_are_unstable _ _ _ H)
+    as (_ & _ & Hnum & _ & Hhs & _ & _ & _ & _ & (recs & _ & Hpm & Hrec) & _).
+  assert (Hne : Raft.hard_state_of (rn_raft n) <> rn_prev_hs n).
+  { intros E. rewrite <- E in Hd. cbn in Hd. destruct Hd as [C|C]; apply C; reflexivity. }
+  assert (Hc : hs_changed n && tv_changed n = true).
+  { unfold hs_changed, tv_changed. apply andb_true_intro. split.
+    - apply negb_true_iff. destruct (hs_eqb _ _) eqn:E; [|reflexivity].
+      apply hs_eqb_eq in E. contradiction.
+    - cbn. destruct Hd as [C|C].
+      + apply orb_true_intro. right. apply negb_true_iff, N.eqb_neq. exact C.
+      + apply orb_true_intro. left. apply negb_true_iff, N.eqb_neq. exact C. }
+  split; [apply Hhs; split; [exact Hne|reflexivity]|].
+  split; [apply Hms; destruct Hd as [C|C]; [right; right; left|right; right; right]; exact C|].
+  split; [rewrite Hpm, Hc; rewrite orb_true_r; reflexivity|].
+  split.
+  - eexists _, _. split; [exact Hrec|]. cbn. split; [symmetry; exact Hnum|exact Hc].
+  - split; assumption.
+Qed.
+
+(* ------------------------------------------------------------------ *)
+(* 5. a restart resumes exactly the stored term and vote *)
+
+Theorem raft_new_resumes c st sa dr r :
+  raft_new c st sa dr = Ok (inr r) ->
+  r_term r = hs_term (MemStorage.hs st) /\ r_vote r = hs_vote (MemStorage.hs st) /\
+  r_id r = c_id c /\ r_state r = Follower /\ r_leader_id r = INVALID_ID.
+Proof.
+  unfold raft_new. intros H. dtop H; [discriminate|]. ib H l Hl.
+  destruct (ConfChange.restore empty_tracker (MemStorage.cs st)) as [[c' ids']|e]; [|discriminate].
+  ib H x Hx. destruct x as [r2 new_cs]. dtop H; [discriminate|].
+  ib H r3 H3. ib H r4 H4. ib H r5 H5. ib H lt0 Hlt. injection H as <-.
+  apply post_conf_change_keeps, keeps_fields in Hx. destruct Hx as (A1 & A2 & _ & _ & A5).
+  apply cfg_fields in A5. destruct A5 as (AI & _). cbn in A1, A2, AI.
+  assert (E3 : r_term r3 = hs_term (MemStorage.hs st) /\ r_vote r3 = hs_vote (MemStorage.hs st) /\
+               r_id r3 = c_id c).
+  { dtop H3.
+    - injection H3 as <-. apply hs_eqb_eq in Heqb1. rewrite Heqb1. cbn. auto.
+    - unfold load_state in H3. dtop H3; [discriminate|]. injection H3 as <-. cbn. auto. }
+  destruct E3 as (B1 & B2 & B3).
+  assert (K4 : keeps r3 r4).
+  { dtop H4; [eapply commit_apply_internal_keeps; exact H4|injection H4 as <-; apply keeps_refl]. }
+  apply keeps_fields in K4. destruct K4 as (C1 & C2 & _ & _ & C5). apply cfg_fields in C5.
+  destruct C5 as (CI & _).
+  apply become_follower_facts in H5. destruct H5 as (F1 & F2 & F3 & F4 & F5 & _).
+  rewrite N.eqb_refl in F5. apply cfg_fields in F2. destruct F2 as (FI & _).
+  repeat split; congruence.
+Qed.
+
+Theorem rn_new_resumes c st sa dr n :
+  rn_new c st sa dr = Ok (inr n) ->
+  r_term (rn_raft n) = hs_term (MemStorage.hs st) /\
+  r_vote (rn_raft n) = hs_vote (MemStorage.hs st) /\
+  hs_term (rn_prev_hs n) = hs_term (MemStorage.hs st) /\
+  hs_vote (rn_prev_hs n) = hs_vote (MemStorage.hs st) /\
+  r_id (rn_raft n) = c_id c /\ r_state (rn_raft n) = Follower /\ rn_records n = [].
+Proof.
+  unfold rn_new. intros H. dtop H; [discriminate|]. ib H x Hx. destruct x as [e|r]; [discriminate|].
+  injection H as <-. apply raft_new_resumes in Hx. destruct Hx as (A & B & C0 & D & _). cbn.
+  repeat split; assumption.
+Qed.
+
+(* ------------------------------------------------------------------ *)
+(* definitions used in the pinned statements, unfolded *)
+
+Lemma def_vote_step m r r' :
+  vote_step m r r' <->
+  r_id r' = r_id r /\ r_term r <= r_term r' /\
+  (r_term r' = r_term r ->
+   r_vote r' = r_vote r \/
+   (r_vote r = INVALID_ID /\ m_type m = MsgRequestVote /\ r_vote r' = m_from m)) /\
+  (r_term r < r_term r' ->
+   r_vote r' = INVALID_ID \/ r_vote r' = r_id r \/
+   (m_type m = MsgRequestVote /\ m_term m = r_term r' /\ r_vote r' = m_from m)).
+Proof. reflexivity. Qed.
+
+Lemma def_tv_plain r r' :
+  tv_plain r r' <->
+  r_id r' = r_id r /\ r_term r <= r_term r' /\
+  (r_term r' = r_term r -> r_vote r' = r_vote r) /\
+  (r_term r < r_term r' -> r_vote r' = INVALID_ID \/ r_vote r' = r_id r).
+Proof. reflexivity. Qed.
+
+Lemma def_sel ty l : sel ty l = filter (fun x => m_type x =? ty) l.
+Proof. reflexivity. Qed.
+
+(* the remaining Raft API keeps term and vote (and role, leader, id) *)
+Theorem raft_api_keeps_term_vote :
+  (forall r cc r' ocs, raft_apply_conf_change r cc = Ok (r', ocs) ->
+     r_term r' = r_term r /\ r_vote r' = r_vote r) /\
+  (forall r i t r', on_persist_entries r i t = Ok r' -> r_term r' = r_term r /\ r_vote r' = r_vote r) /\
+  (forall r i r', on_persist_snap r i = Ok r' -> r_term r' = r_term r /\ r_vote r' = r_vote r) /\
+  (forall r a r', commit_apply r a = Ok r' -> r_term r' = r_term r /\ r_vote r' = r_vote r) /\
+  (forall r r', ping r = Ok r' -> r_term r' = r_term r /\ r_vote r' = r_vote r) /\
+  (forall r r' c, request_snapshot r = Ok (r', c) -> r_term r' = r_term r /\ r_vote r' = r_vote r).
+Proof.
+  assert (K : forall r r', keeps r r' -> r_term r' = r_term r /\ r_vote r' = r_vote r)
+    by (intros r r' H; apply keeps_fields in H; destruct H as (A & B & _); auto).
+  repeat split; intros; apply K.
+  - eapply raft_apply_conf_change_keeps; eassumption.
+  - eapply raft_apply_conf_change_keeps; eassumption.
+  - eapply on_persist_entries_keeps; eassumption.
+  - eapply on_persist_entries_keeps; eassumption.
+  - eapply on_persist_snap_keeps; eassumption.
+  - eapply on_persist_snap_keeps; eassumption.
+  - eapply commit_apply_internal_keeps; eassumption.
+  - eapply commit_apply_internal_keeps; eassumption.
+  - eapply ping_keeps; eassumption.
+  - eapply ping_keeps; eassumption.
+  - eapply request_snapshot_keeps; eassumption.
+  - eapply request_snapshot_keeps; eassumption.
+Qed.
+
+(* ------------------------------------------------------------------ *)
+(* example: node 3 (term 2, no vote, no leader known) grants node 2 its vote for term 3
+   and then refuses node 1 in the same term *)
+Definition x6_r0 : raft := xs_follower <| r_leader_id := 0 |>.
+Definition x6_req (from : N) : msg :=
+  msg_default <| m_type := MsgRequestVote |> <| m_from := from |> <| m_to := 3 |> <| m_term := 3 |>
+              <| m_index := 3 |> <| m_log_term := 1 |>.
+
+Lemma x6_one_vote : exists r1 c1 r2 c2 g rj,
+  step x6_r0 (x6_req 2) = Ok (r1, c1) /\ r_term r1 = 3 /\ r_vote r1 = 2 /\
+  r_msgs r1 = [g] /\ m_type g = MsgRequestVoteResponse /\ m_reject g = false /\ m_to g = 2 /\ m_term g = 3 /\
+  step r1 (x6_req 1) = Ok (r2, c2) /\ r_term r2 = 3 /\ r_vote r2 = 2 /\
+  r_msgs r2 = [g; rj] /\ m_reject rj = true /\ m_to rj = 1.
+Proof. vm_compute. do 6 eexists. repeat split; reflexivity. Qed.
